@@ -57,17 +57,18 @@ FRAGS_ABS = {
 ITEMS_NODE = [
     "id", "nid: id", "__typename", "... on User { name age }", "... on User { uname: name color }", "... on Bot { model }",
     "... on Dog { barks }", "... on Named { name }", "... on Node { id }", "...NodeF", "...NamedF", "...UserF", "...BotF",
-    "...ThingF", "...NodeInlF", "... on User { ...UserF }", "... on User { bestFriend { id } }", "... { id }",
+    "...ThingF", "...NodeInlF", "... on User { ...UserF }", "... on User { bestFriend { id } }", "... { id }", "kind: __typename",
 ]
 ITEMS_THING = [
     "__typename", "... on User { name age }", "... on Bot { model }", "... on Dog { barks }", "... on Named { name }",
     "... on Node { id }", "...NodeF", "...UserF", "...ThingF", "...DogF", "... on User { id fav { __typename } }",
-    "... on Dog { owner { name } }",
+    "... on Dog { owner { name } }", "kind: __typename",
 ]
 ITEMS_USER = [
     "id", "name", "n2: name", "age", "score", "active", "color", "colors", "__typename", "friends { id }", "bestFriend { name }",
     "pet { barks }", "related { id }", "related { ... on Bot { model } }", "fav { ... on Dog { barks } }", "...UserF", "...NodeF",
-    "...NamedF", "...UserDeepF", "...NestF", "... on User { age }", "... on Node { id }", "... on Named { name }",
+    "...NamedF", "...UserDeepF", "...NestF", "... on User { age }", "... on Node { id }", "... on Named { name }", "tn: __typename",
+    "pet { kind: __typename barks }", "related { kind: __typename }",
 ]
 DIRECTIVES = ["", "@include(if: $v)", "@skip(if: $v)", "@include(if: true)", "@skip(if: $w)"]
 
